@@ -152,7 +152,7 @@ let f _id vs =
                if not (matches !cov) then begin
                  stale_obs := true;
                  if not (qon && ion) && jit = 0 && not !unquiet then
-                   prop i "read %d returns %s although a completed run had read the changelog at length %d (now %d)"
+                   prop i "stale hit after invalidation: read %d returns %s although a completed run had read the changelog at length %d (now %d)"
                      j (show_content ct) !cov ndb
                end) (List.combine ans cts);
              let fresh_upto db a = let ok = ref true in
@@ -170,6 +170,36 @@ let f _id vs =
                  if qon && not (fresh_upto db ans) then knowns := "subproblem_restamped_after_write" :: !knowns
                  else prop i "stale read that the model does not reproduce"
                end
+             end
+           end
+         | _ -> diff i "model output kind")
+      | I "6" :: tb :: _ :: key :: ws :: hit :: ct :: jx :: [] ->
+        (* a cached read racing with a write *)
+        let k = dec_key key and ct = dec_content ct in
+        let o j = RaceRead (k, List.map dec_tup (as_list ws), true, j) in
+        let st = tick_to c !s (as_int tb) and st0 = tick_to c !s0 (as_int tb) in
+        let (st', out) = step c st (o (n_of_int (as_int jx))) in
+        let (st0', out0) = step c st0 (o N0) in
+        s := st'; s0 := st0';
+        let db = st.s_db in
+        let ndb = nat_len db in
+        (match out with
+         | OAns ([(_, n)], _, [m_hit], _, _) ->
+           if m_hit <> as_bool hit then diff i "racing read: iterator hit model=%s impl=%s" (b2 m_hit) (b2 (as_bool hit));
+           let expect = content_of (view db k n) in
+           if expect <> ct then diff i "racing read content model(at %d)=%s impl=%s" (int_of_nat n) (show_content expect) (show_content ct);
+           let matches lo = let r = ref false in
+             for v = lo to ndb do if content_of (view db k (nat_of_int v)) = ct then r := true done; !r in
+           if not (matches 0) then prop i "racing read returns %s, which no state of the store ever held" (show_content ct);
+           if not (matches !cov) && not (qon && ion) then begin
+             if jit = 0 then
+               prop i "stale hit after invalidation: racing read returns %s although a completed run had read the changelog at length %d (now %d)" (show_content ct) !cov ndb
+             else begin
+               let fresh_upto db a = let ok = ref true in
+                 for v = 0 to !cov - 1 do if not (fresh_atb db (nat_of_int v) a) then ok := false done; !ok in
+               if fresh_upto st0.s_db (out_src out0) && not (fresh_upto db (out_src out)) then
+                 knowns := "ttl_jitter_iterator_outlives_window" :: !knowns
+               else prop i "stale racing read under jitter that the jitter does not explain"
              end
            end
          | _ -> diff i "model output kind")
